@@ -24,6 +24,22 @@ def run_map(pid, kind, tier, seed, caps_mc, caps_sim, assumptions):
                                                        GenFail="TRUE" if (pref == "FALSE" and kind == "hm") else "FALSE"),
                           pid + "-Sim" + pref, simulate=nsim, depth=61, seed=seed)
         replay(run, "maps-replay", cases, "%s-sim-%s" % (kind, pref))
+    # 2b. the slot-level model (OpenAddr refines MapSpec): design invariants, then one replayed case per distinct slot layout
+    oa_inv = ["ModOK", "ProbeInv", "NoDup", "ProbeEnds", "FindsAll", "Refines"]
+    res8 = "{0, 1, 2, 3, 4, 5, 6, 7}"
+    if kind == "hm":
+        small = dict(KeySeq="<-KS3", Kind=K, Cap0s="{1, 4}", Mod="12", ResSet="{0, 3, 6, 9}", MaxV="4")
+        oa = dict(small, KeySeq="<-KS4") if not thorough else \
+            dict(small, KeySeq="<-KS5", Mod="36", ResSet="{0, 3, 6, 9, 12, 15, 18, 21, 24, 27, 30, 33}")
+    else:
+        small = dict(KeySeq="<-KS3", Kind=K, Cap0s="{2}", Mod="8", ResSet=res8, MaxV="4")
+        oa = dict(small, KeySeq="<-KS4") if not thorough else dict(small, KeySeq="<-KS5", Cap0s="{2, 8}")
+    # value-precise for three keys, then every layout (value ids abstracted by the VIEW) for more keys
+    mc(run, "OpenAddr.tla", small, oa_inv, pid + "-OpenAddrMC", workers=8, timeout=1800)
+    mc(run, "OpenAddr.tla", dict(oa, MaxV="0"), oa_inv, pid + "-OpenAddrLayouts", workers=8, timeout=3600, view="Layout")
+    cases = gen_cases(run, "OpenAddrGen.tla", dict(oa, MaxV="0"), pid + "-OpenAddrFan", workers=8, timeout=3600)
+    run.notes["slot_layouts_replayed"] = len(cases)
+    replay(run, "maps-replay", cases, "%s-slots" % kind)
     # 3. impl -> spec
     d = workdir(pid + "-traces")
     files = []
@@ -41,4 +57,6 @@ def run_map(pid, kind, tier, seed, caps_mc, caps_sim, assumptions):
     return run.finish("model_checking",
                       "cases = TLC-generated (path to each distinct abstract map state + every enabled call, each replayed under "
                       "three real-key profiles: colliding/wrapping homes, sequential, random) or TLC-simulated behaviours over 12 keys, "
-                      "plus harness-driven random histories validated by TLC; distinct = distinct (kind, initial capacity, operation path)")
+                      "plus one case per distinct slot layout of the slot-level model OpenAddr (every assignment of home slots to 3-5 keys, "
+                      "before and after growth; real keys found by searching the real hash for the residues the model chose), "
+                      "plus harness-driven random histories validated by TLC; distinct = distinct (kind, initial capacity, home slots, operation path)")
